@@ -169,7 +169,7 @@ func runC03(c *core.Ctx) {
 	// ---- keys absent / empty / duplicated for map and URL inputs
 	k := 0
 	for _, text := range []string{"required", "required|m_req", "required,to=1~3|m_r", "to=1~3|m_r,required|必_req", "phone|m_r", "to=2~3"} {
-		for _, shape := range []string{"absent", "empty", "nonempty", "dup-empty-first", "dup-empty-last", "absent-among-others", "no-query", "bare-after-value", "bare-only", "nil-map", "raw-equals-in-value", "amp-leading", "amp-double-before", "amp-double-after", "amp-trailing", "after-bad-escape", "after-truncated-escape"} {
+		for _, shape := range []string{"absent", "empty", "nonempty", "dup-empty-first", "dup-empty-last", "absent-among-others", "no-query", "bare-after-value", "bare-only", "nil-map", "raw-equals-in-value", "amp-leading", "amp-double-before", "amp-double-after", "amp-trailing", "after-bad-escape", "after-truncated-escape", "after-question-mark"} {
 			for _, keyName := range []string{"a", "ids[]", "姓名", "first name", "a+b"} {
 				k++
 				if !c.Mine(k) {
@@ -354,6 +354,8 @@ func c03Absent(res *core.Result, text, shape, keyName string) {
 		params = []kv{{keyName, "abcd"}, {"\x00emptypair", ""}}
 	case "after-bad-escape": // "?sig=%zz&<key>=ab": a parameter that cannot be decoded does not hide the ones after it
 		params = []kv{{"\x00rawpiece", "sig=%zz"}, {keyName, "ab"}}
+	case "after-question-mark": // a literal '?' inside an earlier value: the query starts after the FIRST '?' and goes to the end
+		params = []kv{{"\x00rawpiece", "b=/home?tab=1"}, {keyName, "ab"}}
 	case "after-truncated-escape":
 		params = []kv{{"b", "x"}, {"\x00rawpiece", "sig=a%2"}, {keyName, "abcd"}, {"\x00rawpiece", "%=1"}}
 	case "nil-map":
